@@ -222,7 +222,15 @@ func runSolver(name string, file string, timeoutS int) SolverResult {
 	_ = cmd.Run()
 	secs := time.Since(t0).Seconds()
 	s := out.String()
-	first := strings.TrimSpace(strings.SplitN(s, "\n", 2)[0])
+	first := ""
+	for _, ln := range strings.Split(s, "\n") {
+		ln = strings.TrimSpace(ln)
+		if ln == "" || strings.HasPrefix(ln, "WARNING") || strings.HasPrefix(ln, "(warning") {
+			continue
+		}
+		first = ln
+		break
+	}
 	st := "error"
 	switch {
 	case first == "unsat":
@@ -237,28 +245,55 @@ func runSolver(name string, file string, timeoutS int) SolverResult {
 	return SolverResult{Status: st, Solver: name, Out: s, Secs: secs}
 }
 
-// solve races the solvers: z3-new first (fast path), then the others.
-func solve(file string, timeoutS int, thorough bool) (SolverResult, []SolverResult) {
+// solve tries the lite query (heap-closedness axioms dropped: fewer hypotheses, so an unsat answer is still valid)
+// and the full query on z3-new, then the other solvers. A sat answer only counts on the full query.
+func solve(lite, full string, timeoutS int, thorough bool, expectSat bool) (SolverResult, []SolverResult) {
 	var all []SolverResult
-	r := runSolver("z3-new", file, timeoutS)
+	if expectSat {
+		r := runSolver("z3-new", full, timeoutS)
+		all = append(all, r)
+		return r, all
+	}
+	r := runSolver("z3-new", lite, timeoutS)
+	r.Solver = "z3-new(lite)"
 	all = append(all, r)
 	if r.Status == "unsat" && !thorough {
 		return r, all
 	}
-	if r.Status == "sat" && !thorough {
-		return r, all
-	}
-	ch := make(chan SolverResult, 2)
-	for _, s := range []string{"z3", "cvc5"} {
-		go func(s string) { ch <- runSolver(s, file, timeoutS) }(s)
-	}
 	best := r
-	for i := 0; i < 2; i++ {
+	if r.Status != "unsat" {
+		r2 := runSolver("z3-new", full, timeoutS)
+		all = append(all, r2)
+		best = r2
+		if (r2.Status == "unsat" || r2.Status == "sat") && !thorough {
+			return r2, all
+		}
+	}
+	type job struct{ solver, file, tag string }
+	jobs := []job{{"z3", lite, "z3(lite)"}, {"cvc5", lite, "cvc5(lite)"}, {"z3", full, "z3"}, {"cvc5", full, "cvc5"}}
+	ch := make(chan SolverResult, len(jobs))
+	for _, j := range jobs {
+		go func(j job) {
+			x := runSolver(j.solver, j.file, timeoutS)
+			if strings.HasSuffix(j.tag, "(lite)") && x.Status == "sat" {
+				x.Status = "unknown"
+			}
+			x.Solver = j.tag
+			ch <- x
+		}(j)
+	}
+	for range jobs {
 		x := <-ch
 		all = append(all, x)
-		if best.Status != "unsat" && best.Status != "sat" && (x.Status == "unsat" || x.Status == "sat") {
+		if best.Status != "unsat" && x.Status == "unsat" {
 			best = x
 		}
+		if best.Status != "unsat" && best.Status != "sat" && x.Status == "sat" {
+			best = x
+		}
+	}
+	if best.Solver == "z3-new(lite)" && best.Status == "sat" {
+		best.Status = "unknown"
 	}
 	return best, all
 }
